@@ -22,6 +22,7 @@ CONSTANTS
   WriteSizes,  \* set of <<n, k>>: a Write/WriteString of n bytes of which the underlying accepts k
   ReadFroms,   \* set of <<m, f, j>>: source of m bytes failing after f (f = m: clean EOF), destination accepts j
   MaxCalls,
+  RedirectCodes, \* codes Context.Redirect is additionally tried with (a refused code changes nothing, so many are cheap)
   HelperCodes  \* status codes the Context helpers String/Blob/Stream/Redirect are called with ({} = helpers not explored)
 
 VARIABLES st, n, op
@@ -111,6 +112,7 @@ HRedirect(c) == ~st.hij /\ Step(DoRedirect(st, c, FALSE, 0), "Redirect", <<c>>)
 
 Next ==
   \/ \E c \in HelperCodes : HString(c) \/ HBlob(c) \/ HStream(c) \/ HRedirect(c)
+  \/ (HelperCodes # {} /\ \E c \in RedirectCodes : HRedirect(c))
   \/ \E c \in Codes : WriteHeader(c)
   \/ \E w \in WriteSizes : Write(w) \/ WriteString(w)
   \/ \E rf \in ReadFroms : ReadFrom(rf)
